@@ -12,7 +12,7 @@ class LdcLdc2LiteralT2(LdcLdc2Literal):
         add = bit_at(instr, 23)
         index = bit_at(instr, 24)
         imm32 = imm8 << 2
-        if substring(instr, 23, 21) == 0b0000 or substring(coproc, 3, 1) == 0b101:
+        if substring(instr, 24, 21) == 0b0000 or substring(coproc, 3, 1) == 0b101:
             raise UndefinedInstructionException()
         elif bit_at(instr, 21) or (not index and processor.registers.current_instr_set() != InstrSet.ARM):
             print('unpredictable')
